@@ -19,12 +19,12 @@ type retCase struct {
 	Shape   string `json:"shape"`
 	Int     int    `json:"int,omitempty"`
 	Str     core.B `json:"str,omitempty"`
-	Nil     bool   `json:"nil,omitempty"`     // nil slice / nil pointer / nil interface instead of Str
-	Err     string `json:"err,omitempty"`     // "" nil | new | custom | wrapped
-	ErrMsg  core.B `json:"err_msg,omitempty"` //
-	Pos     int    `json:"pos"`               // number of silent handlers before it
-	Reflect bool   `json:"reflective"`        // add an injected parameter so that the built-in fast path cannot apply
-	Custom  string `json:"custom,omitempty"`  // "" | app | request | request-late : a custom ReturnHandler is registered there (late = after the silent handlers ran)
+	Nil     bool   `json:"nil,omitempty"`                           // nil slice / nil pointer / nil interface instead of Str
+	Err     string `json:"err,omitempty"`                           // "" nil | new | custom | wrapped
+	ErrMsg  core.B `json:"err_msg,omitempty"`                       //
+	Pos     int    `json:"pos"`                                     // number of silent handlers before it
+	Reflect bool   `json:"reflective"`                              // add an injected parameter so that the built-in fast path cannot apply
+	Custom  string `json:"custom,omitempty"`                        // "" | app | request | request-late : a custom ReturnHandler is registered there (late = after the silent handlers ran)
 	PreRet  bool   `json:"silent_handlers_return_values,omitempty"` // the preceding silent handlers return "" / nil error / nil []byte
 	Method  string `json:"method,omitempty"`
 }
@@ -386,7 +386,7 @@ func valueIface(v reflect.Value) interface{} {
 }
 
 func runC14(r *core.Run) {
-	r.Rule("handlers built with reflect.MakeFunc for 12 return shapes (string, named string, []byte, *string, *[]byte, interface{}, error, (int,string), (int,[]byte), (int,error), (string,error), ([]byte,error)) x random values (arbitrary bytes, empty, statuses 100-599, nil / non-nil errors of three concrete types, nil pointers/slices/interfaces), placed after 0-2 silent handlers and followed by a marker handler; with and without an injected parameter (so that func() (int,string) runs through the built-in fast path and reflectively); custom ReturnHandler in application or request scope. Oracle: the statement's table as a function of the returned Go values. non-trivial = distinct (shape, value class, path, position, values)")
+	r.Rule("handlers built with reflect.MakeFunc for 12 return shapes (string, named string, []byte, *string, *[]byte, interface{}, error, (int,string), (int,[]byte), (int,error), (string,error), ([]byte,error)) x random values (arbitrary bytes, empty, statuses 100-599, nil / non-nil errors of three concrete types, nil pointers/slices/interfaces), placed after 0-2 silent handlers and followed by a marker handler; with and without an injected parameter (so that func() (int,string) runs through the built-in fast path and reflectively); the silent handlers may themselves return silent values; custom ReturnHandler in application scope, request scope, or mapped late in the request after earlier handlers have returned. Oracle: the statement's table as a function of the returned Go values. non-trivial = distinct (shape, value class, path, position, values)")
 	r.Assume("non-nil zero-length values ([]byte{}, pointer to \"\") are observed but not judged (DESIGN §6)")
 	c14Canaries(r)
 	n := r.N(100000, 5000000)
